@@ -85,6 +85,32 @@ CONSTS = {"PI": sp.pi, "FRAC_PI_2": sp.pi / 2, "FRAC_1_SQRT_2": 1 / sp.sqrt(2), 
           "FRAC_PI_4": sp.pi / 4, "TAU": 2 * sp.pi}
 
 
+F32_EXACT = True     # switch: model values squeezed through f32 exactly (off where only the structure of a start guess matters)
+
+
+def round_to_f32(q):
+    """The IEEE single nearest (ties to even) to the rational q (normal range); single precision is 2^-24 relative — far outside any
+    "up to rounding in double" allowance, so values squeezed through f32 are modelled exactly."""
+    q = sp.Rational(q)
+    if q == 0 or not F32_EXACT:
+        return q
+    sgn = -1 if q < 0 else 1
+    a = abs(q)
+    import math
+    e = math.floor(math.log2(float(a))) - 23
+    # make sure 2^23 <= a / 2^e < 2^24
+    while a / sp.Integer(2) ** e >= 2 ** 24:
+        e += 1
+    while a / sp.Integer(2) ** e < 2 ** 23:
+        e -= 1
+    m = a / sp.Integer(2) ** e
+    fl = sp.floor(m)
+    r = m - fl
+    if r > sp.Rational(1, 2) or (r == sp.Rational(1, 2) and fl % 2 == 1):
+        fl += 1
+    return sgn * fl * sp.Integer(2) ** e
+
+
 def lit_value(n, decimal=True):
     if n["lit"] == "int":
         return sp.Integer(int(n["v"]))
@@ -229,7 +255,10 @@ class Interp:
         return self.ev(n["e"])
 
     def ev_Cast(self, n):
-        return self.ev(n["e"])
+        v = self.ev(n["e"])
+        if n.get("ty") == "f32" and getattr(v, "is_Rational", False):
+            return round_to_f32(v)
+        return v
 
     def ev_Try(self, n):
         v = self.ev(n["e"])
@@ -433,7 +462,10 @@ class Interp:
         if f.get("dk", "").startswith("Ctor"):
             return Variant(last, [self.ev(a) for a in n["args"]])
         if last in FROM_PRIM and "FromPrimitive" in d or last in FROM_PRIM and "num_traits" in d:
-            return self.ev(n["args"][0])
+            v0 = self.ev(n["args"][0])
+            if last == "from_f32" and getattr(v0, "is_Rational", False):
+                return round_to_f32(v0)
+            return v0
         if last in TRANSPARENT_CALLS and len(n["args"]) == 1:
             return self.ev(n["args"][0])
         if d.endswith("One::one"):
